@@ -1248,7 +1248,7 @@ class Analysis:
                 min_le = [ka_]                       # a.saturating_sub(c) <= a
                 if b is not None and b[0] == b[1]:
                     newrel = ("satsub", ka_, b[0])   # and a - result == min(a, c)
-        elif name in self.KNOWN_RANGES:
+        elif name in self.KNOWN_RANGES and name not in self.summaries:
             iv = self.KNOWN_RANGES[name]
         elif name == "core::mem::size_of" and not args:
             targs = [x.get("n") for x in t["fn"].get("args", []) if isinstance(x, dict) and x.get("k") == "prim"]
